@@ -16,115 +16,12 @@ sys.path.insert(0, os.path.join(os.path.dirname(__file__), ".."))
 SRC = "/repo/src/bluesky"
 
 
-class AddLogging(ast.NodeTransformer):
-    def visit_FunctionDef(self, node):
-        self.generic_visit(node)
-        stmt = ast.parse("logger.debug('enter %s', 1)").body[0]  # never executed: only analysed
-        i = 1 if (node.body and isinstance(node.body[0], ast.Expr) and isinstance(node.body[0].value, ast.Constant) and isinstance(node.body[0].value.value, str)) else 0
-        node.body.insert(i, stmt)
-        return node
-    visit_AsyncFunctionDef = visit_FunctionDef
-
-
-class LogEverywhere(ast.NodeTransformer):
-    """a logging call at the start of every statement list (function, branch, loop, handler, finally, with bodies)"""
-    def generic_visit(self, node):
-        super().generic_visit(node)
-        for fld in ("body", "orelse", "finalbody"):
-            lst = getattr(node, fld, None)
-            if isinstance(lst, list) and lst and isinstance(lst[0], ast.stmt) and not isinstance(node, (ast.Module, ast.ClassDef)):
-                i = 1 if (isinstance(lst[0], ast.Expr) and isinstance(lst[0].value, ast.Constant)) else 0
-                lst.insert(i, ast.parse("logger.debug('at %s', 2)").body[0])
-        return node
-
-
-class Docstrings(ast.NodeTransformer):
-    def visit_FunctionDef(self, node):
-        self.generic_visit(node)
-        if node.body and isinstance(node.body[0], ast.Expr) and isinstance(node.body[0].value, ast.Constant) and isinstance(node.body[0].value.value, str):
-            node.body[0].value.value = "reworded. " + node.body[0].value.value
-        else:
-            node.body.insert(0, ast.Expr(ast.Constant("added docstring")))
-        return node
-    visit_AsyncFunctionDef = visit_FunctionDef
-
-
-def rename_locals(tree):
-    """alpha-rename, per top-level function tree, every name bound by assignment / for / with / comprehension /
-    except-as inside it (not parameters, not global-declared, not names that are also module-level bindings)."""
-    module_names = set()
-    for s in tree.body:
-        for n in ast.walk(s) if not isinstance(s, (ast.FunctionDef, ast.AsyncFunctionDef, ast.ClassDef)) else [s]:
-            if isinstance(n, ast.Name) and isinstance(n.ctx, ast.Store):
-                module_names.add(n.id)
-            if isinstance(n, (ast.FunctionDef, ast.AsyncFunctionDef, ast.ClassDef)):
-                module_names.add(n.name)
-            if isinstance(n, ast.alias):
-                module_names.add((n.asname or n.name).split(".")[0])
-    import builtins
-    keep = module_names | set(dir(builtins))
-
-    def do_tree(fn):
-        bound, params, declared, inner_defs = set(), set(), set(), set()
-        for n in ast.walk(fn):
-            if isinstance(n, ast.Name) and isinstance(n.ctx, (ast.Store, ast.Del)):
-                bound.add(n.id)
-            if isinstance(n, ast.arg):
-                params.add(n.arg)
-            if isinstance(n, (ast.Global,)):
-                declared.update(n.names)
-            if isinstance(n, (ast.FunctionDef, ast.AsyncFunctionDef, ast.ClassDef)) and n is not fn:
-                inner_defs.add(n.name)
-            if isinstance(n, ast.ExceptHandler) and n.name:
-                bound.add(n.name)
-        # class bodies inside functions: their Store names are attributes; skip trees containing classes for safety
-        if any(isinstance(n, ast.ClassDef) for n in ast.walk(fn)):
-            return
-        todo = {b for b in bound if b not in params and b not in declared and b not in keep and b not in inner_defs and not b.startswith("__")}
-        for n in ast.walk(fn):
-            if isinstance(n, ast.Name) and n.id in todo:
-                n.id = n.id + "_r"
-            if isinstance(n, ast.ExceptHandler) and n.name in todo:
-                n.name = n.name + "_r"
-            if isinstance(n, ast.Nonlocal):
-                n.names = [x + "_r" if x in todo else x for x in n.names]
-
-    def walk_defs(body):
-        for s in body:
-            if isinstance(s, (ast.FunctionDef, ast.AsyncFunctionDef)):
-                do_tree(s)
-            elif isinstance(s, ast.ClassDef):
-                walk_defs(s.body)
-    walk_defs(tree.body)
-    return tree
+from bsa.variants import rewrite_tree  # noqa: E402
 
 
 def build(variant, dst):
     shutil.copytree(SRC, os.path.join(dst, "src", "bluesky"), ignore=shutil.ignore_patterns("tests", "__pycache__"))
-    n = 0
-    for root, _, files in os.walk(os.path.join(dst, "src", "bluesky")):
-        for fn in files:
-            if not fn.endswith(".py"):
-                continue
-            p = os.path.join(root, fn)
-            src = open(p).read()
-            tree = ast.parse(src)
-            if variant == "logging":
-                tree = AddLogging().visit(tree)
-            elif variant == "logall":
-                tree = LogEverywhere().visit(tree)
-            elif variant == "docstrings":
-                tree = Docstrings().visit(tree)
-            elif variant == "rename":
-                tree = rename_locals(tree)
-            elif variant != "roundtrip":
-                raise SystemExit(f"unknown variant {variant}")
-            ast.fix_missing_locations(tree)
-            out = ast.unparse(tree)
-            compile(out, p, "exec")
-            open(p, "w").write(out + "\n")
-            n += 1
-    return n
+    return rewrite_tree(variant, os.path.join(dst, "src", "bluesky"))
 
 
 def main():
